@@ -328,9 +328,9 @@ def c05(c):
     c.small("MC_Recode", cfg="MC_Recode16.cfg")
     c.small("MC_Recode", cfg="MC_Recode_nohead.cfg", workers=4, expect_violation=True)
     c.small("MC_Precomp", cfg="MC_Precomp.cfg", workers=8)
-    # the recoding loop for ANY scalar and ANY number of windows, bases 2^8 and 2^16 (inductive invariant, Apalache)
+    # the recoding loop for ANY scalar and ANY number of windows: bases 2^8, 2^16, then EVERY even base up to 2^21 (inductive invariant, Apalache)
     obl = []
-    for ci in ("CInit8", "CInit16"):
+    for ci in ("CInit8", "CInit16", "CInitAny"):
         obl += [("%s: Init => IndInv" % ci, ["--cinit=" + ci, "--init=Init", "--inv=IndInv", "--length=0"], False),
                 ("%s: IndInv /\\ Next => IndInv'" % ci, ["--cinit=" + ci, "--init=IndInit", "--inv=IndInv", "--length=1"], False),
                 ("%s: IndInv => Safe" % ci, ["--cinit=" + ci, "--init=IndInit", "--inv=Safe", "--length=0"], False)]
@@ -375,6 +375,12 @@ def c09(c):
     c.small("MC_MsmChan", cfg="MC_MsmChan.cfg", workers=4)
     c.small("MC_MsmChan", cfg="MC_MsmChan_nosplit.cfg", workers=4)
     c.small("MC_MsmChan", cfg="MC_MsmChan_overflow.cfg", workers=4, expect_violation=True)
+    # the signed-digit rule of partitionScalars for ANY scalar, ANY number of windows and EVERY window width up to 21 (inductive invariant, Apalache)
+    c.apalache("RecodeInd", [("CInitMsm: Init => IndInv", ["--cinit=CInitMsm", "--init=Init", "--inv=IndInv", "--length=0"], False),
+                             ("CInitMsm: IndInv /\\ Next => IndInv'", ["--cinit=CInitMsm", "--init=IndInit", "--inv=IndInv", "--length=1"], False),
+                             ("CInitMsm: IndInv => Safe", ["--cinit=CInitMsm", "--init=IndInit", "--inv=Safe", "--length=0"], False),
+                             ("mutant (carry never cleared) refuted", ["--cinit=CInitMsmMut", "--init=Init", "--inv=Safe", "--length=3"], True),
+                             ("non-vacuity: a completed three-window run exists", ["--cinit=CInitMsm", "--init=Init", "--inv=NoCompletedRun", "--length=5"], True)])
     progs = c.generate("Gen_MSM")
     files = c.drive("msm", progs, shards=vlib.NCPU, timeout=3600)
     # the default task count (NbTasks = 0 -> runtime.NumCPU()) and ipa.MultiScalar on machines with 3 and 5 (thorough: 1, 2, 3, 5, 6, 7, 12) CPUs
